@@ -173,6 +173,12 @@ def run_case(prop, case, acc, keep_sample=True):
     """Run prop.check on one case under the watchdog; harness bugs are recorded, never raised."""
     signal.signal(signal.SIGALRM, _alarm)
     signal.alarm(int(os.environ.get("VERIF_CASE_TIMEOUT", "30")))
+    hb = _HEARTBEAT.get("path") if prop.WATCHDOG_IS_VIOLATION else None
+    if hb:
+        # a hang inside C code (a regex match) never lets the SIGALRM handler run: the parent process watches
+        # this file instead and reports the case written here if it stays unchanged for too long
+        with open(hb, "w") as f:
+            f.write("%f\n%s" % (time.time(), canon(case)))
     try:
         res = prop.check(case)
     except _Timeout:
@@ -217,6 +223,8 @@ def run_case(prop, case, acc, keep_sample=True):
 
 
 _KNOWN = {}
+_HEARTBEAT = {}
+HANG_LIMIT = int(os.environ.get("VERIF_HANG_LIMIT", "75"))      # seconds without progress on one case
 
 
 def fuzz_stage(prop, acc, module, seed, runs, jobs=8, **kw):
@@ -242,6 +250,9 @@ def load_prop(pid):
 def _worker(args):
     pid, tier, seed, w, n = args
     bind_repo()
+    hbdir = os.environ.get("VERIF_HEARTBEAT_DIR")
+    if hbdir:
+        _HEARTBEAT["path"] = os.path.join(hbdir, "w%d" % w)
     try:
         import resource
         lim = int(os.environ.get("VERIF_MEM_GB", "6")) * 2 ** 30
@@ -332,7 +343,47 @@ def attribute(prop, known, case, bucket, detail):
 
 # ---------------------------------------------------------------------------------------------
 
+def _stale_heartbeat(hbdir):
+    now = time.time()
+    for name in os.listdir(hbdir):
+        try:
+            with open(os.path.join(hbdir, name)) as f:
+                ts, _, body = f.read().partition("\n")
+            if body and now - float(ts) > HANG_LIMIT:
+                return json.loads(body)
+        except (OSError, ValueError):
+            continue
+    return None
+
+
+def _check_in_child(prop_id, case, q):
+    bind_repo()
+    prop = load_prop(prop_id)
+    res = prop.check(case)
+    q.put([(list(b), d) for b, d in res.failures])
+
+
+def check_with_hard_timeout(prop, case, seconds):
+    """Run prop.check(case) in a child process; returns the failures, or [(("hang",), ...)] if it does not finish."""
+    import multiprocessing as mp
+    ctx = mp.get_context("spawn")
+    q = ctx.Queue()
+    pr = ctx.Process(target=_check_in_child, args=(prop.ID, case, q))
+    pr.start()
+    pr.join(seconds)
+    if pr.is_alive():
+        pr.terminate()
+        pr.join()
+        return [(("hang",), "did not finish within %d s" % seconds)]
+    try:
+        return [(tuple(b), d) for b, d in q.get(timeout=5)]
+    except Exception:
+        return []
+
+
 def fails_with(prop, case, bucket):
+    if prop.WATCHDOG_IS_VIOLATION and bucket == ("hang",):
+        return any(b == ("hang",) for b, _ in check_with_hard_timeout(prop, case, 20))
     signal.signal(signal.SIGALRM, _alarm)
     signal.alarm(30)
     try:
@@ -369,7 +420,11 @@ def replay_corpus(prop, acc):
             with open(os.path.join(d, name)) as f:
                 body = json.load(f)
             sub = Acc()
-            run_case(prop, body["case"], sub, keep_sample=False)
+            if prop.WATCHDOG_IS_VIOLATION:
+                for b, dtl in check_with_hard_timeout(prop, body["case"], HANG_LIMIT):
+                    sub.failures.setdefault(b, []).append((0, body["case"], dtl))
+            else:
+                run_case(prop, body["case"], sub, keep_sample=False)
             n += 1
             acc.harness_errors.extend(sub.harness_errors)
             for b, lst in sub.failures.items():
@@ -389,7 +444,11 @@ def main_check(pid, tier, seed, replay=None):
         with open(replay) as f:
             body = json.load(f)
         acc = Acc()
-        run_case(prop, body["case"], acc)
+        if prop.WATCHDOG_IS_VIOLATION:
+            for b, dtl in check_with_hard_timeout(prop, body["case"], HANG_LIMIT):
+                acc.failures.setdefault(b, []).append((0, body["case"], dtl))
+        else:
+            run_case(prop, body["case"], acc)
         if acc.harness_errors:
             print("HARNESS-ERROR", acc.harness_errors[0][0])
             return 2
@@ -422,9 +481,38 @@ def main_check(pid, tier, seed, replay=None):
     if n > 0:
         import multiprocessing as mp
         ctx = mp.get_context("spawn")
-        with ctx.Pool(W) as pool:
-            for sub in pool.imap_unordered(_worker, [(pid, tier, seed, w, n) for w in range(W)]):
-                acc.merge(sub)
+        hbdir = None
+        if prop.WATCHDOG_IS_VIOLATION:
+            import tempfile
+            hbdir = tempfile.mkdtemp(prefix="verif_hb_")
+            os.environ["VERIF_HEARTBEAT_DIR"] = hbdir
+        pool = ctx.Pool(W)
+        try:
+            pending = [pool.apply_async(_worker, ((pid, tier, seed, w, n),)) for w in range(W)]
+            hung = None
+            while pending and hung is None:
+                for r in list(pending):
+                    if r.ready():
+                        acc.merge(r.get())
+                        pending.remove(r)
+                if pending:
+                    time.sleep(0.5)
+                    if hbdir:
+                        hung = _stale_heartbeat(hbdir)
+            if hung is not None:
+                pool.terminate()
+                res = Result()
+                res.fail(("hang",), "no progress on this case for more than %d s (the watchdog signal could not "
+                         "interrupt it: the time is spent inside C code)" % HANG_LIMIT)
+                acc.add(hung, res, False)
+                acc.extra["workers_lost_to_hang"] = len(pending)
+        finally:
+            pool.terminate()
+            pool.join()
+            if hbdir:
+                import shutil
+                shutil.rmtree(hbdir, ignore_errors=True)
+                os.environ.pop("VERIF_HEARTBEAT_DIR", None)
     try:
         prop.extra_stages(tier, seed, acc)
     except Exception:
